@@ -17,6 +17,18 @@ CLAIMED = {
    technique="vocabulary and dispatch-table agreement between parser, matchers and printers on the AST with go/types constants + specificity constants vs the Selectors-4 table + case-folding provenance and i-flag plumbing on SSA + empty-value scenario reachability + escaping of quoted interpolations + division guards",
    text="Decides necessary conditions of selector matching/weighing: no parser output can reach a panicking default of a Match dispatcher; specificity constants and the max rule of :is/:not/:has are those of Selectors 4; combinators, attribute operators and structural pseudo-class names dispatch to the specified relation with the specified (a,b,last,ofType); names are ASCII-lowercased and the i flag reaches every comparison; substring/word operators cannot match with an empty value; printed selectors escape quoted values and use names the parser accepts. The matching algorithms themselves (sibling walks, an+b arithmetic, :empty, :lang) are not decided.",
    ref="4 C05"),
+ "C09": dict(
+   technique="table agreement between the display validator/computer vocabulary and makeBox's display → box class switch (AST + constants) against the CSS Display table + must-precede order of the anonymous-box passes on SSA",
+   text="Thin: decides that every display value that can be produced has the box class the CSS Display table prescribes and that the anonymous-box passes run in the required order. What each rewriting pass does (block-in-inline splitting, table wrapping, blockification) is not decided.",
+   ref="4 C09"),
+ "C11": dict(
+   technique="keyword-set extraction of every white-space classification test (AST boolean chains over values derived from GetWhiteSpace) compared with the CSS Text classes and a per-function table confirmed by reading + validator/consumer vocabulary agreement",
+   text="Thin: decides that each white-space test uses the right CSS Text class (collapse spaces / collapse newlines / wrap / no-wrap) at each site and that the white-space and text-align vocabularies are handled by their consumers. Widths, break opportunities and greedy filling are not decided.",
+   ref="4 C11"),
+ "C12": dict(
+   technique="keyword-set extraction of the forced/avoid break predicates and of the sibling-resolution choice table (AST + constants) compared with the CSS Fragmentation sets + producer/consumer vocabulary agreement + division guard on the :nth() page arithmetic",
+   text="Thin: decides that the forced and avoid break vocabularies are the CSS Fragmentation sets (column variants only in columns), that every break value the validators emit is classified, that forced beats avoid beats auto between siblings, and that :nth() page matching never divides by zero. Page geometry, actual break positions, orphans/widows and blank-page insertion are not decided.",
+   ref="4 C12"),
  "C17": dict(
    technique="polynomial value numbering of the matrix routines over SSA (exact rationals, uninterpreted trig) compared with specification matrices + AST/SSA checks of vocabulary, arity, argument order, composition order and origin conjugation",
    text="Decides that each routine of package matrix, as a polynomial in its inputs, equals the specification matrix (and in-place operations equal right multiplication by the constructor), that SVG transform.applyTo right-multiplies by the specified matrix per kind with degrees converted to radians, and that the CSS/SVG plumbing (names, arities, argument positions, left-to-right composition, transform-origin conjugation, angle-unit table) is as specified. Float rounding is outside the abstraction; the matrix finally handed to the backend is not traced further than getMatrix/applyTo.",
